@@ -429,6 +429,10 @@ def rules(ctx):
     # otherwise a revert answers with the cached descendants of an older assignment (same rule as C02.R1)
     from .c02 import r1_snapshot
     r1_snapshot(ctx, rid="C01.R8", title="every assignment refreshes the snapshot a revert restores (taken exactly when auto-fork is on, before the store)")
+    # the closure used for the invalidation is the one of *this* graph: nothing computed for one graph (a process-wide memo keyed by
+    # something less than the edges) may be served to another one (same rule as C13.R5, restricted to the variables package)
+    from .c13 import r5_shared_defaults
+    r5_shared_defaults(ctx, rid="C01.R9", scope="leaspy.variables", title="the dependency closures a State invalidates with are computed from its own graph (no process-wide memo in leaspy.variables)")
     ctx.trust("CPython ast; Python dict semantics; torch out-of-place semantics of methods whose name does not end in '_'")
     ctx.assume("sorted_children / sorted_ancestors of VariablesDAG are the exact transitive closures in topological order (C15)")
 
